@@ -171,6 +171,10 @@ pub struct World {
     /// sort before the first, and both may share one stem when their formats - hence extensions - differ
     #[serde(default)]
     pub out_stems: Option<(String, String)>,
+    /// the configuration's termination section leaves out its `type` key and relies on the shipped default
+    /// (`query_runtime`): only set when the model is a plain runtime limit
+    #[serde(default)]
+    pub termination_partial: bool,
 }
 
 pub fn uuid_of(v: usize) -> String {
@@ -399,6 +403,7 @@ impl World {
             policies_at_run_level: false,
             per_run_sinks: None,
             out_stems: None,
+            termination_partial: false,
         }
     }
 
@@ -754,7 +759,18 @@ impl World {
             "graph": graph,
             "algorithm": self.algorithm,
             "traversal": traversal,
-            "termination": if reference && self.ref_unlimited { json!({"type": "query_runtime", "limit": "10:00:00", "frequency": 100000}) } else { self.termination.clone() },
+            "termination": if reference && self.ref_unlimited {
+                json!({"type": "query_runtime", "limit": "10:00:00", "frequency": 100000})
+            } else if self.termination_partial && self.termination["type"] == json!("query_runtime") {
+                // (a user who only sets the limit and the frequency of the default runtime model)
+                let mut t = self.termination.clone();
+                if let Some(m) = t.as_object_mut() {
+                    m.remove("type");
+                }
+                t
+            } else {
+                self.termination.clone()
+            },
             "plugin": { "input_plugins": self.input_plugins, "output_plugins": output_plugins },
         });
         if let Traversal::Distance { unit } = &self.traversal {
